@@ -38,14 +38,16 @@ func VerifH_C05_deleteQueueC() {
 	conn := &vConn{}
 	c, k1, k2, _, ch2, has1, has2 := vPipelineConn(false, conn)
 	verifrt.Assume(has1)
+	old := c.nextQid
 	c.deleteQueueC(k1)
 	verifrt.Reach("deleted")
+	verifrt.Assert(c.nextQid == old, "the ID counter never moves backwards: a wire ID is used once in a connection's life")
 	_, still := c.queue[uint32(k1)]
 	verifrt.Assert(!still, "own entry removed")
 	if has2 {
 		verifrt.Assert(c.queue[uint32(k2)] == ch2, "other waiters untouched")
 	}
-	wantClosed := c.nextQid > 65535 && !has2
+	wantClosed := old > 65535 && !has2
 	verifrt.Assert(c.closed == wantClosed, "retired exactly when IDs are exhausted and nobody waits")
 	verifrt.Assert((conn.closed > 0) == wantClosed, "socket closed exactly on retirement")
 }
@@ -453,3 +455,17 @@ func VerifH_C05_WireIDsNeverReused() {
 // together with (or after) its exchange's cancellation must never be handed to a LATER exchange on the transport —
 // that exchange would return another query's answer under its own ID.
 func VerifH_C04_PipelinedLateReply() { VerifH_C05_LateReply() }
+
+
+// VerifH_C04_WireIDsAreNeverReissued: on a multiplexed connection the wire ID is the ONLY thing that pairs a reply with
+// its query (nothing compares questions), so "never mixed up" rests on an ID being issued once per connection: the
+// allocator and the retirement step from any valid state (the step harnesses of C05, registered under the no-mix-up
+// property as well): fresh monotone IDs, refusal instead of wrapping, the counter never moves backwards, the connection is
+// retired when the space is used up and drained.
+func VerifH_C04_WireIDsAreNeverReissued() {
+	if verifrt.Bool("step.delete") {
+		VerifH_C05_deleteQueueC()
+	} else {
+		VerifH_C05_addQueueC()
+	}
+}
